@@ -20,36 +20,43 @@ def itemTok : Item → String
   | .ended => "end"
   | .item v c => "i" ++ toString v ++ ":" ++ (if c then "1" else "0")
 
-/-- runs a history; `dropped` subscribers produce no output -/
-def runX (poll : Chan → Rcv → Item × Rcv) : List XOp → St → List Nat → List String
-  | [], _, _ => []
-  | .set v :: t, s, d => runX poll t { s with chan := s.chan.send v } d
-  | .sub :: t, s, d => runX poll t { s with subs := s.subs ++ [s.chan.subscribe] } d
-  | .drop k :: t, s, d => runX poll t s (k :: d)
-  | .poll k :: t, s, d =>
-    if d.contains k then runX poll t s d else
+/-- after a `set`: every parked subscriber (last poll pending, not dropped) is woken, in index order -/
+def wokeToks (parked : List Nat) (n : Nat) : List String :=
+  ((List.range n).filter parked.contains).map fun k => toString k ++ ":woke"
+
+/-- runs a history; `dropped` subscribers produce no output; `parked` = subscribers whose last poll was pending -/
+def runX (poll : Chan → Rcv → Item × Rcv) : List XOp → St → List Nat → List Nat → List String
+  | [], _, _, _ => []
+  | .set v :: t, s, d, pk => wokeToks pk s.subs.length ++ runX poll t { s with chan := s.chan.send v } d []
+  | .sub :: t, s, d, pk => runX poll t { s with subs := s.subs ++ [s.chan.subscribe] } d pk
+  | .drop k :: t, s, d, pk => runX poll t s (k :: d) (pk.filter (· != k))
+  | .poll k :: t, s, d, pk =>
+    if d.contains k then runX poll t s d pk else
     match s.subs[k]? with
-    | none => runX poll t s d
+    | none => runX poll t s d pk
     | some r =>
       let (o, r') := poll s.chan r
-      (toString k ++ ":" ++ itemTok o) :: runX poll t { s with subs := s.subs.set k r' } d
+      let pk' := match o with | .pending => k :: pk.filter (· != k) | _ => pk.filter (· != k)
+      (toString k ++ ":" ++ itemTok o) :: runX poll t { s with subs := s.subs.set k r' } d pk'
 
 /-- oracle on one runtime's observation: per subscriber, items are in increasing order of `set`
     index, each is a value set after the subscription and is the latest at poll time, all marked
-    continuing, never `end`; a poll is pending only if nothing new was set since its last item. -/
-def specRun : List XOp → (latest : Nat) → (subs : List (Nat)) → List Nat → List String
+    continuing, never `end`; a poll is pending only if nothing new was set since its last item; and a
+    subscriber that was told "pending" is woken by the next `set` (else a task awaiting it would never
+    see the value). -/
+def specRun : List XOp → (latest : Nat) → (subs : List (Nat)) → List Nat → List Nat → List String
   -- subs: per subscriber the value it has last been brought up to (latest at subscribe time / last yield)
-  | [], _, _, _ => []
-  | .set v :: t, _, subs, d => specRun t v subs d
-  | .sub :: t, l, subs, d => specRun t l (subs ++ [l]) d
-  | .drop k :: t, l, subs, d => specRun t l subs (k :: d)
-  | .poll k :: t, l, subs, d =>
-    if d.contains k then specRun t l subs d else
+  | [], _, _, _, _ => []
+  | .set v :: t, _, subs, d, pk => wokeToks pk subs.length ++ specRun t v subs d []
+  | .sub :: t, l, subs, d, pk => specRun t l (subs ++ [l]) d pk
+  | .drop k :: t, l, subs, d, pk => specRun t l subs (k :: d) (pk.filter (· != k))
+  | .poll k :: t, l, subs, d, pk =>
+    if d.contains k then specRun t l subs d pk else
     match subs[k]? with
-    | none => specRun t l subs d
+    | none => specRun t l subs d pk
     | some seen =>
-      if seen = l then (toString k ++ ":pend") :: specRun t l subs d
-      else (toString k ++ ":i" ++ toString l ++ ":1") :: specRun t l (subs.set k l) d
+      if seen = l then (toString k ++ ":pend") :: specRun t l subs d (k :: pk.filter (· != k))
+      else (toString k ++ ":i" ++ toString l ++ ":1") :: specRun t l (subs.set k l) d (pk.filter (· != k))
 
 def handleNotif (ts : List String) : String :=
   let (_, r0) := splitAt "O" ts
@@ -57,15 +64,15 @@ def handleNotif (ts : List String) : String :=
   match os.mapM parseOp with
   | none => "bad-line"
   | some ops =>
-    let t := runX pollTokio ops init []
-    let s := runX pollSmol ops init []
+    let t := runX pollTokio ops init [] []
+    let s := runX pollSmol ops init [] []
     let m := "T " ++ " ".intercalate t ++ " ; S " ++ " ".intercalate s
     let m := (m.replace "T  ;" "T ;")
     let (_, o1) := splitAt "T" obs
     let (ot, o2) := splitAt ";" o1
     let os' := o2.drop 1
     -- values are set in increasing order 1,2,3..: `latest` identifies the set
-    let want := specRun ops 0 [] []
+    let want := specRun ops 0 [] [] []
     let h := ot == want && os' == want
     "M " ++ (if t.isEmpty then "T ; S" ++ (if s.isEmpty then "" else " " ++ " ".intercalate s) else m) ++
       " | H " ++ (if h then "1" else "0")
